@@ -12,4 +12,7 @@ if [ "$1" = "--replay" ]; then
 fi
 args=()
 [ "$1" = "--thorough" ] && args+=(-thorough)
+# GOVC_OUT: write evidence/replay files somewhere else (seeded/try.sh, so a run on a
+# deliberately broken tree does not overwrite the committed evidence)
+[ -n "$GOVC_OUT" ] && args+=(-out "$GOVC_OUT")
 exec ./bin/govc check -prop "$prop" "${args[@]}"
